@@ -122,12 +122,10 @@ func (d *uripostDecoder) readBlock(reader *bufio.Reader, commonHeader http.Heade
 		return nil, err
 	}
 
-	buff := make([]byte, bodySize)
-	if bodySize != 0 {
-		if n, err := io.ReadFull(reader, buff); err != nil {
-			err = xerrors.Errorf("failed to read ammo with err: %w, at position: %v; tried to read: %v; have read: %v", err, filePosition(d.file), bodySize, n)
-			return nil, err
-		}
+	buff, err := readBody(reader, bodySize)
+	if err != nil {
+		err = xerrors.Errorf("failed to read ammo with err: %w, at position: %v; tried to read: %v; have read: %v", err, filePosition(d.file), bodySize, len(buff))
+		return nil, err
 	}
 
 	header := commonHeader.Clone()
